@@ -1811,6 +1811,8 @@ def evaluate__round(self: XPathFunction, context: ta.ContextType = None) \
         return []
     elif isinstance(arg, XPathNode) or self.parser.compatibility_mode:
         arg = self.number_value(arg)
+    elif isinstance(arg, (bool, str)):
+        raise self.error('XPTY0004', "the argument is not a number")
 
     if isinstance(arg, float) and (math.isnan(arg) or math.isinf(arg)):
         return arg
